@@ -297,6 +297,18 @@ def build(pkg, sp=None):
     for key in ("styles", "numbering", "footnotes", "endnotes", "comments"):
         if key in roots and (sp.rename_parts or pkg.meta.get("declare_rels", True)):
             rel(target_of(names[key]), REL + key)
+    # several relationships of one type, each to an existing part: the FIRST one in the relationships part is the part that is read
+    alt_parts = []
+    if pkg.meta.get("alt_parts"):
+        if "styles" in roots:
+            rel("styles2nd.xml", REL + "styles")
+            rel("styles3rd.xml", REL + "styles")
+            alt = [X("w:style", dict(st.attributes), [X("w:name", {"w:val": "Alt " + str(k)})]) for k, st in enumerate(pkg.styles or [])
+                   if isinstance(st, XmlElement) and st.name == "w:style"]
+            alt_parts += [("word/styles2nd.xml", X("w:styles", {}, alt)), ("word/styles3rd.xml", X("w:styles", {}, alt[:1]))]
+        if "numbering" in roots:
+            rel("numbering2nd.xml", REL + "numbering")
+            alt_parts.append(("word/numbering2nd.xml", X("w:numbering")))
     cts = pkg.content_types
     overrides = list(cts["overrides"])
     if pkg.embedded_style_map is not None:
@@ -306,7 +318,12 @@ def build(pkg, sp=None):
                 [X("content-types:Default", {"Extension": e, "ContentType": c}) for e, c in cts["defaults"]] +
                 [X("content-types:Override", {"PartName": p, "ContentType": c}) for p, c in overrides])
     pkg_rels = X("relationships:Relationships", {}, [X("relationships:Relationship", {
-        "Id": "rId1", "Type": REL + "officeDocument", "Target": names["document"]})])
+        "Id": "rId1", "Type": REL + "officeDocument", "Target": names["document"]})] + (
+        [X("relationships:Relationship", {"Id": "rId%d" % (k + 2), "Type": REL + "officeDocument", "Target": "word/document%s.xml" % sfx})
+         for k, sfx in enumerate(("2nd", "3rd", "4th"))] if pkg.meta.get("alt_parts") else []))
+    if pkg.meta.get("alt_parts"):
+        for sfx in ("2nd", "3rd", "4th"):
+            alt_parts.append(("word/document%s.xml" % sfx, X("w:document", {}, [X("w:body", {}, [X("w:p", {}, [X("w:r", {}, [X("w:t", {}, [XmlText("alternative " + sfx)])])])])])))
     drels = X("relationships:Relationships", {}, [X("relationships:Relationship", {"Id": i, "Target": t, "Type": ty})
                                                    for i, t, ty in doc_rels])
     entries = []
@@ -324,6 +341,7 @@ def build(pkg, sp=None):
             if key in ("footnotes", "endnotes", "comments"):
                 dd, bb = names[key].rsplit("/", 1)
                 entries.append(("%s/_rels/%s.rels" % (dd, bb), drels))
+    entries += alt_parts
     if sp.stale_parts:
         stale = {"document": X("w:document", {}, [X("w:body", {}, [X("w:p", {}, [X("w:r", {}, [X("w:t", {}, [XmlText("stale part")])])])])]),
                  "styles": X("w:styles", {}, [X("w:style", {"w:type": "paragraph", "w:styleId": "Heading1"}, [X("w:name", {"w:val": "Stale"})])]),
